@@ -39,20 +39,23 @@ def texts():
     omap = {"version": 3, "sources": ["orig.ts"], "names": [],
             "mappings": mp.encode_mappings([(i, 0, 0, i + 100, 0, None) for i in range(nlines)])}
     t["chain"] = body + "//# sourceMappingURL=data:application/json;base64," + base64.b64encode(json.dumps(omap).encode()).decode() + "\n"
+    # the original map names its source by an absolute path
+    amap = dict(omap, sources=["/abs/src/orig.ts"])
+    t["chainabs"] = body + "//# sourceMappingURL=data:application/json;base64," + base64.b64encode(json.dumps(amap).encode()).decode() + "\n"
     t["evalv"] = "function boom(a, b) {\n  const s = a + b;\n\n\n  return eval(\"(function(){ throw new Error('e' + s) })()\");\n}\n"
     return t
 
 
 CLASSES = {"modA": "modified", "modB": "modified", "plain": "notmodified", "err": "error", "chain": "modified", "evalv": "modified",
-           "bomplain": "notmodified", "bommod": "modified", "oneline": "modified", "evalret": "modified", "atmsg": "modified", "marker": "modified"}
-THROW_LINE = {"modA": 5, "modB": 9, "plain": 26, "chain": 4 + 100, "evalv": 5, "bomplain": 26, "bommod": 5, "oneline": 1, "evalret": 5, "atmsg": 3, "marker": 4}
+           "bomplain": "notmodified", "bommod": "modified", "oneline": "modified", "evalret": "modified", "atmsg": "modified", "marker": "modified", "chainabs": "modified"}
+THROW_LINE = {"modA": 5, "modB": 9, "plain": 26, "chain": 4 + 100, "evalv": 5, "bomplain": 26, "bommod": 5, "oneline": 1, "evalret": 5, "atmsg": 3, "marker": 4, "chainabs": 4 + 100}
 
 
 def expected_lines(file):
     d = os.path.dirname(file)
     out = {}
     for v, ln in THROW_LINE.items():
-        out[v] = {"path": os.path.join(d, "orig.ts") if v == "chain" else file, "line": ln}
+        out[v] = {"path": os.path.join(d, "orig.ts") if v == "chain" else ("/abs/src/orig.ts" if v == "chainabs" else file), "line": ln}
     out["none"] = {"path": "", "line": 0}
     out["err"] = {"path": "", "line": 0}
     return out
@@ -74,7 +77,7 @@ def stale_map_guard(table, tx):
                 for col in (0, 8, 40):
                     below = [t for t in toks if (t[0], t[1]) <= (ln - 1, col)]
                     got = below[-1][3] + 1 if below else ln
-                    if v == "chain":
+                    if v in ("chain", "chainabs"):
                         got += 100
                     if got == ln:
                         raise vlib.ToolError("package texts do not discriminate: %s line %d reads the same through the map of %s" % (w, ln, v))
